@@ -243,6 +243,26 @@ class Repo:
                 return c.attrs[name], c
         return None
 
+    def attr_assigned_in_class(self, ci: ClassInfo, name: str):
+        """Name of a method of the class (or a base) that assigns self.<name> (plain, augmented or annotated assignment, setattr with a
+        literal name), else None: such an attribute may exist at run time although a contract's object model does not list it."""
+        for c in self.mro(ci):
+            for mname, fi in c.methods.items():
+                for n in ast.walk(fi.node):
+                    tgts = []
+                    if isinstance(n, ast.Assign):
+                        tgts = n.targets
+                    elif isinstance(n, (ast.AugAssign, ast.AnnAssign)):
+                        tgts = [n.target]
+                    elif isinstance(n, ast.Call) and isinstance(n.func, ast.Name) and n.func.id == "setattr" and len(n.args) >= 2 \
+                            and isinstance(n.args[1], ast.Constant) and n.args[1].value == name:
+                        return f"{c.name}.{mname}"
+                    for t in tgts:
+                        for e in (t.elts if isinstance(t, (ast.Tuple, ast.List)) else [t]):
+                            if isinstance(e, ast.Attribute) and e.attr == name and isinstance(e.value, ast.Name) and e.value.id == "self":
+                                return f"{c.name}.{mname}"
+        return None
+
     def is_subclass(self, ci: ClassInfo, base: str) -> bool:
         return any(c.name == base for c in self.mro(ci))
 
